@@ -106,6 +106,8 @@ type c03Case struct {
 
 const customErrLevel = 13   // registered with RegWithPrintToErrorDevice
 const customPlainLevel = 14 // registered without
+const customAsInfoErr = 15  // treated as Info AND registered for the error device: error class
+const customAsErrPlain = 16 // treated as Error, not registered for the error device: normal class
 
 func c03Probe1(e *slog.Entry, lvl int) (p c03Probe) { return c03ProbeMsg(e, lvl, "probe") }
 
@@ -164,9 +166,11 @@ func c03One(r *Run, snap *slog.VerifRegistry, ops []WOp, asOptions bool, kind st
 	slog.AddFlags(slog.LnoInterrupt)
 	_ = slog.RegisterLevel(slog.Level(customErrLevel), "c03err", slog.RegWithPrintToErrorDevice(true))
 	_ = slog.RegisterLevel(slog.Level(customPlainLevel), "c03plain", slog.RegWithPrintToErrorDevice(false))
+	_ = slog.RegisterLevel(slog.Level(customAsInfoErr), "c03infoerr", slog.RegWithTreatedAsLevel(slog.InfoLevel), slog.RegWithPrintToErrorDevice(true))
+	_ = slog.RegisterLevel(slog.Level(customAsErrPlain), "c03errplain", slog.RegWithTreatedAsLevel(slog.ErrorLevel))
 	// the error class per the statement: Panic, Fatal, Error, Warn, Fail and the custom levels
 	// REGISTERED for the error device (not whatever the implementation's table says)
-	errdev := map[int]bool{0: true, 1: true, 2: true, 3: true, 11: true, customErrLevel: true}
+	errdev := map[int]bool{0: true, 1: true, 2: true, 3: true, 11: true, customErrLevel: true, customAsInfoErr: true}
 	var errdevList []int
 	for l := range errdev {
 		errdevList = append(errdevList, l)
@@ -204,7 +208,7 @@ func c03One(r *Run, snap *slog.VerifRegistry, ops []WOp, asOptions bool, kind st
 	}
 	e.SetLevel(slog.AlwaysLevel).SetColorMode(false)
 	var probes []string
-	for _, lvl := range []int{4, 2, 3, 5, 9, 11, 0, customErrLevel, customPlainLevel, 7} {
+	for _, lvl := range []int{4, 2, 3, 5, 9, 11, 0, customErrLevel, customPlainLevel, customAsInfoErr, customAsErrPlain, 7} {
 		p := c03Probe1(e, lvl)
 		exp := spec.route(errdev, lvl)
 		if lvl == 7 {
@@ -280,7 +284,23 @@ func runC03(r *Run) {
 	snap := slog.VerifSnapshot()
 	captureStd(r.Out)
 	r.Coq("Require Import Verif.Model.Base Verif.Model.Writers Verif.Corr.C03.", "case", "ok")
-	r.Rule = "random sequences (length 0..12) of the 11 writer operations over a pool of 6 writers (2 LogWriters, 2 LevelSettable), as methods and as New(...) options, each followed by a probe record at 10 severities (normal, error class, leveled, registered error-device level, registered plain level, Off) and by a blank line (empty Always message; direct oracle only); thorough adds every sequence of length <= 3 over 11 ops x 3 writers; non-trivial = a remove/reset after an add/set; distinct by op list"
+	r.Rule = "random sequences (length 0..12) of the 11 writer operations over a pool of 7 writers (plain, with Close, level-settable, both, a slog.NewLogWriter handle), a corpus that adds and removes every writer in every class,, as methods and as New(...) options, each followed by a probe record at 10 severities (normal, error class, leveled, registered error-device level, registered plain level, a level treated as Info but registered for the error device, a level treated as Error but not registered for it, Off) and by a blank line (empty Always message; direct oracle only); thorough adds every sequence of length <= 3 over 11 ops x 3 writers; non-trivial = a remove/reset after an add/set; distinct by op list"
+	// corpus: every kind of writer (plain, with Close, level-settable, both, a NewLogWriter handle) is added to and
+	// removed from every class, alone and next to another writer
+	for w := 1; w <= 7; w++ {
+		o := 1 + w%7
+		for _, seq := range [][]WOp{
+			{{Kind: "AddW", W: w}, {Kind: "RemW", W: w}},
+			{{Kind: "SetW", W: w}, {Kind: "AddW", W: o}, {Kind: "RemW", W: w}},
+			{{Kind: "SetW", W: o}, {Kind: "AddW", W: w}, {Kind: "RemW", W: w}, {Kind: "AddW", W: w}},
+			{{Kind: "AddE", W: w}, {Kind: "RemE", W: w}},
+			{{Kind: "SetE", W: w}, {Kind: "AddE", W: o}, {Kind: "RemE", W: w}},
+			{{Kind: "AddL", L: 4, W: w}, {Kind: "RemL", L: 4, W: w}},
+			{{Kind: "AddL", L: 2, W: o}, {Kind: "AddL", L: 2, W: w}, {Kind: "RemL", L: 2, W: w}},
+		} {
+			c03One(r, snap, seq, false, "corpus")
+		}
+	}
 	for i := r.N(300, 6000); i > 0; i-- {
 		n := r.R.Intn(13)
 		asOpt := r.R.Chance(30)
